@@ -772,11 +772,25 @@ class AdapterLookupBase:
 
     def changed(self, ignored=None):
         super().changed(None)
-        for r in self._required.keys():
+        # Other threads may be looking things up (which adds to this
+        # dictionary) or invalidating us at the same time (verifying
+        # lookups do that on their own). Taking the entries out one at
+        # a time means each of them is unsubscribed exactly once and the
+        # dictionary is never iterated while it changes.
+        required = self._required
+        while required:
+            try:
+                r, _ = required.popitem()
+            except KeyError:
+                break
             r = r()
             if r is not None:
-                r.unsubscribe(self)
-        self._required.clear()
+                try:
+                    r.unsubscribe(self)
+                except KeyError:
+                    # Two threads subscribing us at the same time may
+                    # have been counted only once.
+                    pass
 
     # Extendors
     # ---------
